@@ -28,7 +28,9 @@ ASSUMPTIONS = [
     'concatenate is only exercised with a non-empty consecutive selection (its documented precondition)',
     'parallelize runs under the harness-owned scheduler of C18 (one worker); its rows are compared as multisets',
 ]
-EXHAUSTIVE_NOTE = 'the fixed product processors x selector forms x FIXED_PACKAGES is enumerated completely on every run'
+EXHAUSTIVE_NOTE = ('the fixed product processors x selector forms x FIXED_PACKAGES is enumerated completely on every run; of the variant products '
+                   '(regex=False, one-stream sources, preludes, behind duplicate) the quick tier runs a third per run, rotating with '
+                   'VERIF_SEED, the thorough tier all')
 BUDGET = {'quick': dict(examples=1600, shards=16, seconds=70),
           'thorough': dict(examples=60000, shards=16, seconds=1200)}
 
@@ -81,18 +83,37 @@ PRELUDE_PROCS = ['set_type', 'rename_fields', 'delete_fields', 'select_fields', 
 
 
 def enumerate_cases(tier):
-    out = []
+    base = []
     for names in FIXED_PACKAGES:
         for sel in selector_forms(names):
             for p in PROCS:
-                out.append({'proc': p, 'names': names, 'sel': sel})
-            out.append({'proc': 'load_tuple', 'names': names, 'sel': sel, 'seq_iters': True})
+                base.append({'proc': p, 'names': names, 'sel': sel})
+            base.append({'proc': 'load_tuple', 'names': names, 'sel': sel, 'seq_iters': True})
+    extras = _enumerate_extras()
+    if tier == 'quick':
+        # the base product is always complete; of the variant products (regex=False, one-stream sources, preludes) a
+        # third is run per quick run, rotating with VERIF_SEED (the thorough tier runs all of them)
+        try:
+            k = int(os.environ.get('VERIF_SEED', '1') or '1') % 3
+        except ValueError:
+            k = 1
+        extras = [c for i, c in enumerate(extras) if i % 3 == k]
+    return base + extras
+
+
+def _enumerate_extras():
+    out = []
     for names in FIXED_PACKAGES[1:]:
         for sel in selector_forms(names):
             for p in REGEX_PROCS:
                 out.append({'proc': p, 'names': names, 'sel': sel, 'regex': False})
             for p in ('delete_resource', 'concatenate', 'filter_rows', 'deduplicate'):
                 out.append({'proc': p, 'names': names, 'sel': sel, 'seq_iters': True})
+    for names in FIXED_PACKAGES[:3]:
+        dup_names = [names[0], names[0] + '_copy'] + list(names[1:])
+        for sel in selector_forms(dup_names):
+            for p in DUP_PROCS:
+                out.append({'proc': p, 'names': names, 'sel': sel, 'prelude': 'duplicate', 'to_end': len(names) % 2 == 0})
     for names in FIXED_PACKAGES[1:4]:
         for sel in selector_forms(names):
             for pre in PRELUDES:
@@ -112,6 +133,11 @@ def drawn_case(draw):
         c['prelude'] = draw(st.sampled_from(PRELUDES))
     elif c['proc'] in REGEX_PROCS and draw(st.booleans()):
         c['regex'] = False
+    elif draw(st.integers(0, 3)) == 0:
+        c['proc'] = draw(st.sampled_from(DUP_PROCS))
+        c['prelude'] = 'duplicate'
+        c['to_end'] = draw(st.booleans())
+        c['sel'] = draw(st.sampled_from(selector_forms([names[0], names[0] + '_copy'] + list(names[1:]))))
     return c
 
 
@@ -150,8 +176,9 @@ def build_prelude(kind):
 REGEX_PROCS = ['set_type', 'select_fields', 'delete_fields', 'rename_fields', 'unpivot']
 
 
-def build_step(proc, sel, capture=None, prelude=None, regex=True):
-    sel = copy.deepcopy(sel)
+def build_step(proc, sel, capture=None, prelude=None, regex=True, keep_object=False):
+    if not keep_object:
+        sel = copy.deepcopy(sel)
     d = dataflows
     if not regex and not prelude and proc in REGEX_PROCS:
         # regex=False concerns the FIELD names only: the resources selector keeps its meaning
@@ -265,7 +292,64 @@ def run(steps, pkg, seq=False, scheduled=False):
     return d_, [sorted(t, key=lambda r: (r.get('id', 0), r.get('m', 0), str(r.get('v')))) for t in rows]
 
 
+DUP_PROCS = ['set_type', 'rename_fields', 'delete_fields', 'select_fields', 'add_field', 'add_computed_field', 'update_schema',
+             'set_primary_key', 'update_resource', 'find_replace', 'filter_rows', 'sort_rows', 'unpivot']
+
+
+def check_after_duplicate(case, ctx):
+    """The step under test runs right behind duplicate(first resource): the package then holds the original and its copy,
+    and the selector may pick only one of the twins.  Same oracle: unselected resources equal the pipeline without the
+    step, selected ones equal the unrestricted step on a package holding only them."""
+    proc, names0, sel = case['proc'], case['names'], case['sel']
+    classes = ['proc:' + proc, 'sel:' + ('none' if sel is None else type(sel).__name__), 'prelude:duplicate']
+    pkg = build_pkg(names0)
+
+    def pre():
+        return [dataflows.duplicate(names0[0], names0[0] + '_copy', names0[0] + '_copy.csv',
+                                    duplicate_to_end=bool(case.get('to_end')))]
+    try:
+        ref_desc, ref_rows = run(pre(), pkg)
+        names = [r['name'] for r in ref_desc['resources']]
+        try:
+            idxs = select(sel, names)
+        except (IndexError, re.error):
+            return Info(rejected=True, classes=classes + ['out-of-domain-selector'])
+        if proc == 'set_type' and not idxs:
+            return Info(rejected=True, classes=classes + ['set_type-nothing-to-do'])
+        out_desc, out = run(pre() + [build_step(proc, sel, [], None, case.get('regex', True))], pkg)
+        sub_desc = {'profile': 'data-package', 'resources': [copy.deepcopy(ref_desc['resources'][i]) for i in idxs]}
+        if idxs:
+            sub_d, sub_out = run_steps([build_step(proc, None, [], None, case.get('regex', True))], sub_desc,
+                                       [ref_rows[i] for i in idxs])
+        else:
+            sub_d, sub_out = {'resources': []}, []
+    except Violation:
+        raise
+    except Exception as e:
+        raise unexpected(e, 'duplicate + ' + proc)
+    if [r['name'] for r in out_desc['resources']] != names or len(out) != len(names):
+        raise Violation('%s:resource-list' % proc, {'got': [r['name'] for r in out_desc['resources']], 'expected': names})
+    for i, nm in enumerate(names):
+        d, rows = out_desc['resources'][i], out[i]
+        if i not in idxs:
+            if d != ref_desc['resources'][i]:
+                raise Violation('%s:unselected-descriptor-changed' % proc, {'resource': nm, 'selector': sel, 'after': 'duplicate'})
+            if rows != ref_rows[i]:
+                raise Violation('%s:unselected-rows-changed' % proc, {'resource': nm, 'selector': sel, 'after': 'duplicate'})
+        else:
+            j = idxs.index(i)
+            if d != sub_d['resources'][j]:
+                raise Violation('%s:selected-descriptor-differs-from-unrestricted-run' % proc,
+                                {'resource': nm, 'selector': sel, 'after': 'duplicate'})
+            if rows != sub_out[j]:
+                raise Violation('%s:selected-rows-differ-from-unrestricted-run' % proc, {'resource': nm, 'selector': sel})
+    return Info(nontrivial=0 < len(idxs) < len(names), classes=classes,
+                key=json.dumps([proc, sel, names0, 'duplicate', case.get('regex'), bool(case.get('to_end'))]))
+
+
 def check(case, ctx):
+    if case.get('prelude') == 'duplicate':
+        return check_after_duplicate(case, ctx)
     proc, names, sel = case['proc'], case['names'], case['sel']
     classes = ['proc:' + proc, 'sel:' + ('none' if sel is None else type(sel).__name__)]
     try:
@@ -283,7 +367,8 @@ def check(case, ctx):
             base = [{'name': 'pre', 'fields': [{'name': 'q', 'type': 'integer'}], 'rows': [{'q': 1}]}]
             if proc == 'load_package':
                 dp = write_package(pkg, ctx.tmpdir())
-                step = dataflows.load(dp, resources=copy.deepcopy(sel))
+                sel_obj = copy.deepcopy(sel)
+                step = dataflows.load(dp, resources=sel_obj)
             else:
                 if case.get('seq_iters'):
                     # iterators that all read from ONE underlying stream (what datastream().res_iter of a streaming
@@ -292,8 +377,11 @@ def check(case, ctx):
                     its = (rw.it for rw in feed(gen.descriptor_of(pkg), gen.tables_of(pkg), sequential=True).res_iter)
                 else:
                     its = [iter(copy.deepcopy(r['rows'])) for r in pkg]
-                step = dataflows.load((gen.descriptor_of(pkg), its), resources=copy.deepcopy(sel))
+                sel_obj = copy.deepcopy(sel)
+                step = dataflows.load((gen.descriptor_of(pkg), its), resources=sel_obj)
             out_desc, out = run([step], base)
+            if sel_obj != sel:
+                raise Violation('%s:selector-argument-mutated' % proc, {'before': sel, 'after': sel_obj})
             got_names = [r['name'] for r in out_desc['resources']]
             exp_names = ['pre'] + [names[i] for i in idxs]
             if got_names != exp_names or len(out) != len(exp_names):
@@ -323,8 +411,12 @@ def check(case, ctx):
             classes.append('sequential-source')
         if case.get('regex') is False:
             classes.append('regex=False')
-        out_desc, out = run(build_prelude(pre) + [build_step(proc, sel, capture, pre, case.get('regex', True))], pkg,
-                            seq=seq_, scheduled=sched_)
+        sel_obj = copy.deepcopy(sel)
+        out_desc, out = run(build_prelude(pre) + [build_step(proc, sel_obj, capture, pre, case.get('regex', True), keep_object=True)],
+                            pkg, seq=seq_, scheduled=sched_)
+        if sel_obj != sel:
+            # the caller's selector object is the caller's: a list shared between several steps keeps its meaning
+            raise Violation('%s:selector-argument-mutated' % proc, {'before': sel, 'after': sel_obj})
         if pre:
             # reference for "passes through unchanged": the same pipeline without the step under test
             ref_desc, ref_rows = run(build_prelude(pre), pkg)
